@@ -305,6 +305,7 @@ private:
     bool                            fSeenId;
     XSDErrorReporter                fSchemaErrorReporter;
     ValueStackOf<ComplexTypeInfo*>* fTypeStack;
+    ValueStackOf<bool>*             fNilStack;
     DatatypeValidator *             fMostRecentAttrValidator;
     bool                            fErrorOccurred;
     bool                            fElemIsSpecified;
